@@ -494,8 +494,17 @@ class Rewriter:
             xvalue, xlike = x.operands
             yvalue, ylike = y.operands
             if isinstance(xvalue, number_types) and isinstance(yvalue, number_types):
+                # the folded constant must have the type of the operation result
+                xtype, ytype = xlike.get_type(), ylike.get_type()
+                rtype = xtype.max(ytype)
+                if rtype.is_same(xtype):
+                    like = xlike
+                elif rtype.is_same(ytype):
+                    like = ylike
+                else:
+                    return
                 r = op(xvalue, yvalue)
-                return expr.context.constant(r, xlike)
+                return expr.context.constant(r, like)
 
     def add(self, expr):
         result = self._binary_op(expr, lambda x, y: x + y)
